@@ -13,7 +13,7 @@ theorem parseOn_eq (ops : List Op) (fns : List Bytes) (old : St) (s : Bytes) : p
 
 /-- the result of `Evaluate` on a used evaluator is the result of the fresh `evaluate` with the same budget -/
 theorem evaluateReuse_snd (ops : List Op) (fns : List Bytes) (resolve : Option (Bytes → Bytes)) (old : St) (s : Bytes) :
-    (evaluateReuse ops fns resolve old s).2 = evaluate ops fns resolve (s.length + 1) s := by
+    (evaluateReuse ops fns resolve old s).2 = evaluate ops fns resolve (driverBudget s + 1) s := by
   unfold evaluateReuse evaluateWith evaluate parseTop
   rw [parseOn_eq]
   cases parse ops fns s with
